@@ -76,6 +76,7 @@ HARNESSES = {
     'coro_shared_mutex': dict(src='harness/coro_shared_mutex.cpp', kind='mc'),
     'wait_group': dict(src='harness/wait_group.cpp', kind='mc'),
     'pool': dict(src='harness/pool.cpp', kind='mc'),
+    'chain': dict(src='harness/chain.cpp', kind='mc'),
 }
 
 
@@ -189,7 +190,8 @@ def write_ninja(targets):
             extra_objs.append(obj)
         inputs = [hobj] + extra_objs + (VARIANTS[vname]['_eng'] if h['kind'] == 'mc' else []) + VARIANTS[vname]['_objs']
         lines += ['build %s: link %s' % (ninja_escape(binp), ' '.join(ninja_escape(x) for x in inputs)),
-                  '  ldflags = ' + ' '.join(ldflags(vname, v) + h.get('ld', [])), '']
+                  '  ldflags = ' + ' '.join(ldflags(vname, v) + h.get('ld', []) +
+                                             (['-Wl,--wrap=__cxa_allocate_exception'] if h['kind'] == 'mc' else [])), '']
         bins.append(binp)
     path = os.path.join(BUILD, 'build.ninja')
     text = '\n'.join(lines) + '\n'
@@ -263,9 +265,12 @@ CHECKS = {
               seq('pipeline', 'seq17', quick=dict(shards=16, args=['--mode', 'lazy', '--prop', 'C02']),
                   thorough=dict(shards=16, args=['--mode', 'lazy', '--prop', 'C02'])),
               mc('handoff', 'mc-asan', quick=dict(P=99, cells='cons=(ThenInline|ThenInlineV|ThenE|ConnectThen)'),
-                 thorough=dict(P=99))],
+                 thorough=dict(P=99)),
+              mc('chain', 'mc-asan', quick=dict(P=3, S=1), thorough=dict(P=4, S=1))],
         assumptions=['the C++17 / FAULT=OFF instantiation the baseline ships (plus ASan); single-threaded: executors are '
-                     'instrumented inline executors, so "fulfilled concurrently with building" is covered by the explorer harness handoff',
+                     'instrumented inline executors; "fulfilled concurrently with building" is covered by the explorer harnesses handoff '
+                     '(one link) and chain (two-step pipelines built while the source, an inner future returned by a step and a pool worker '
+                     'complete them: all interleavings for up to 3 fibers, 3-4 preemptions above)',
                      'pipeline length bound as stated; coroutine sources are covered in C13',
                      'the reference interpreter (harness/pipeline.cpp Reference(), DESIGN.md appendix C) is the specification'],
         technique='bounded exhaustive enumeration of operation sequences against a reference model (plus exhaustive schedule enumeration for the concurrent hand-off)',
@@ -285,6 +290,7 @@ CHECKS = {
               seq('pipeline', 'seq17', quick=dict(shards=16, args=['--mode', 'lazy', '--prop', 'C03']),
                   thorough=dict(shards=16, args=['--mode', 'lazy', '--prop', 'C03']), oracles=OWN),
               mc('handoff', 'mc-asan', quick=dict(P=99), thorough=dict(P=99), oracles=OWN),
+              mc('chain', 'mc-asan', quick=dict(P=3, S=1), thorough=dict(P=4, S=1), oracles=OWN),
               mc('shared', 'mc-asan', quick=dict(P=2, S=1, cells='set=(value|drop),keep=0'), thorough=dict(P=3, S=1), oracles=OWN),
               mc('when_all', 'mc-asan', quick=dict(P=2), thorough=dict(P=3), oracles=OWN),
               mc('when_any', 'mc-asan', quick=dict(P=2), thorough=dict(P=3), oracles=OWN),
@@ -308,6 +314,7 @@ CHECKS = {
                    'consecutive critical sections), wait_group, at their quick / thorough bounds',
         budget=dict(quick=420, thorough=3000),
         runs=[mc('handoff', 'mc-hb', quick=dict(P=99), thorough=dict(P=99), oracles=HB),
+              mc('chain', 'mc-hb', quick=dict(P=3, S=1, cells='fin=Get'), thorough=dict(P=4, S=1), oracles=HB),
               mc('shared', 'mc-hb', quick=dict(P=2, S=1, cells='set=value'), thorough=dict(P=3, S=1), oracles=HB),
               mc('strand', 'mc-hb', quick=dict(P=2, S=1), thorough=dict(P=3, S=1), oracles=HB),
               mc('pool', 'mc-hb', quick=dict(P=2), thorough=dict(P=3), oracles=HB),
@@ -337,7 +344,8 @@ CHECKS = {
               seq('pipeline', 'seq17', quick=dict(shards=16, args=['--mode', 'lazy', '--prop', 'C05']),
                   thorough=dict(shards=16, args=['--mode', 'lazy', '--prop', 'C05'])),
               mc('strand', 'mc-asan', quick=dict(P=2, S=1, cells='stop=(stop|hard)'), thorough=dict(P=3, S=1)),
-              mc('pool', 'mc-asan', quick=dict(P=2, cells='k=1,j=[12]|k=2,j=1,resub=0'), thorough=dict(P=3))],
+              mc('pool', 'mc-asan', quick=dict(P=2, cells='k=1,j=[12]|k=2,j=1,resub=0'), thorough=dict(P=3)),
+              mc('chain', 'mc-asan', quick=dict(P=3, S=1, cells='steps=.?[EQ]|src=task'), thorough=dict(P=4, S=1, cells='steps=.?[EQ]|src=task'))],
         assumptions=['sequential part: C++17 / FAULT=OFF instantiation with instrumented inline executors; '
                      'concurrent part: FIBER instantiation, sequentially consistent executions, preemption bounds of C07/C08',
                      'co_await On(e) is covered in C13'],
@@ -353,8 +361,11 @@ CHECKS = {
                    'ledger of functor captures and allocation balance are empty at the end',
         budget=dict(quick=200, thorough=1800),
         runs=[seq('pipeline', 'seq17', quick=dict(shards=16, args=['--mode', 'lazy', '--prop', 'C12']),
-                  thorough=dict(shards=16, args=['--mode', 'lazy', '--prop', 'C12']))],
-        assumptions=['C++17 / FAULT=OFF instantiation (plus ASan), single-threaded, instrumented inline executors',
+                  thorough=dict(shards=16, args=['--mode', 'lazy', '--prop', 'C12'])),
+              mc('chain', 'mc-asan', quick=dict(P=3, S=1, cells='src=task'), thorough=dict(P=4, S=1, cells='src=task'))],
+        assumptions=['C++17 / FAULT=OFF instantiation (plus ASan), single-threaded, instrumented inline executors; plus the explorer harness '
+                     'chain with src=task: a Schedule(pool) Task with two further steps started by ToFuture while a pool worker and inner '
+                     'producers run (nothing runs or is submitted before the start call on any schedule)',
                      'starts by co_await / Await and coroutine Task heads are covered in C13',
                      'pipeline length bound as stated'],
         technique='bounded exhaustive enumeration of operation sequences against a reference model and an eager twin (differential)',
@@ -768,6 +779,36 @@ def mini_crosscheck(run, tier, work, ncells, deadline_s=120.0):
     return out
 
 
+def run_harness(harness, variant, tier, cells_rx=None, deadline=600.0):
+    """Development aid: runs one explorer harness at its own bounds and prints a summary (no evidence written)."""
+    build([(harness, variant)])
+    work = os.path.join(BUILD, 'work', 'dev-%s' % harness)
+    shutil.rmtree(work, ignore_errors=True)
+    os.makedirs(work)
+    run = mc(harness, variant, quick=dict(P=2, S=1, T=1), thorough=dict(P=3, S=1, T=1))
+    if cells_rx:
+        run[tier]['cells'] = cells_rx
+    t0 = time.time()
+    res, errs = run_mc('dev', run, tier, 0, time.time() + deadline, work)
+    res.sort(key=lambda c: -c.get('wall_s', 0))
+    for c in res[:12]:
+        print('  slowest: %-60s %s executions=%d wall=%.1fs exhaustive=%s' % (c['cell'], c.get('bounds'), c['executions'], c.get('wall_s', 0), c['exhaustive']))
+    outcomes = {}
+    for c in res:
+        for v in c.get('violations', []):
+            outcomes.setdefault(v['oracle'], []).append((c['cell'], v['text'][:240], v.get('count')))
+    for o, l in outcomes.items():
+        print('VIOLATION oracle=%s cells=%d e.g. %s' % (o, len(l), l[0]))
+        for x in l[1:6]:
+            print('     ', x[0])
+    print('%s/%s %s: cells=%d executions=%d exhaustive=%d/%d violations=%d errors=%d wall=%.1fs' % (
+        harness, variant, tier, len(res), sum(c['executions'] for c in res), sum(1 for c in res if c['exhaustive']), len(res),
+        sum(len(c.get('violations', [])) for c in res), len(errs), time.time() - t0))
+    for e in errs[:5]:
+        print('ERROR', e[:600])
+    return 0
+
+
 def check(prop, tier):
     t0 = time.time()
     spec = CHECKS[prop]
@@ -843,7 +884,7 @@ def check(prop, tier):
                 json.dump(dict(cell=c['cell'], bounds=c.get('bounds', {}), property=prop, harness=c['harness'],
                                variant=c['variant'], oracle=v['oracle'], count=v.get('count', 1),
                                preemptions=v.get('preemptions'), fatal=v.get('fatal'), path=v.get('path', []),
-                               program=v.get('program'), text=v['text']), f)
+                               program=v.get('program'), code=v.get('code'), text=v['text']), f)
                 f.write('\n')
             viol_lines.append('VIOLATION property=%s replay=%s' % (prop, rp))
             viol_lines.append('  harness=%s variant=%s cell=%s oracle=%s count=%s :: %s' % (
@@ -869,6 +910,23 @@ def check(prop, tier):
                                                   'replay_checks', 'hb_accesses', 'wall_s', 'skipped')
                           if c.get(k) is not None})
     capped = [c for c in all_cells if not c.get('exhaustive')]
+    per_run = {}
+    for c in all_cells:
+        d = per_run.setdefault((c['harness'], c['variant']), dict(harness=c['harness'], variant=c['variant'], cells=0, executions=0,
+                                                                   states=0, exhaustive_cells=0, bounds=set(), wall_s=0.0))
+        d['cells'] += 1
+        d['executions'] += c.get('executions', 0)
+        d['states'] += c.get('nodes', 0)
+        d['exhaustive_cells'] += 1 if c.get('exhaustive') else 0
+        d['wall_s'] += c.get('wall_s', 0) or 0
+        b = c.get('bounds') or {}
+        if 'P' in b:
+            d['bounds'].add((b['P'], b.get('S', 0), b.get('T', 0)))
+    runs_summ = []
+    for d in per_run.values():
+        d['bounds'] = [dict(P=p_, S=s_, T=t_) for (p_, s_, t_) in sorted(d['bounds'])]
+        d['wall_s'] = round(d['wall_s'], 1)
+        runs_summ.append(d)
     ev = dict(
         property_id=prop, tier=tier, seed=seed, level='model_checking',
         coverage=dict(
@@ -887,7 +945,7 @@ def check(prop, tier):
             failure_replays=sum(c.get('replay_checks', 0) for c in all_cells),
             hb_accesses=sum(c.get('hb_accesses', 0) for c in all_cells),
             known_findings=known_lines, machinery_errors=errors[:10], build_s=round(t_build, 1),
-            cache_crosscheck=xcs,
+            cache_crosscheck=xcs, runs=runs_summ,
             cells=cell_summ if len(cell_summ) <= 400 else cell_summ[:400],
         ),
         assumptions=spec.get('assumptions', []),
@@ -905,8 +963,9 @@ def check(prop, tier):
     if errors:
         for e in errors[:10]:
             print('MACHINERY-ERROR:', e)
-        return 2
-    return 1 if nviol else 0
+    # replayable violations decide first; a machinery error alone (divergence, a crash that does not reproduce,
+    # cache cross-check mismatch) is exit 2 and never a VIOLATION line
+    return 1 if nviol else (2 if errors else 0)
 
 
 def run_seq(prop, run, tier, seed, t_end, work):
@@ -1065,6 +1124,12 @@ def main():
     r.add_argument('file')
     sub.add_parser('setup')
     sub.add_parser('manifest')
+    hh = sub.add_parser('harness')
+    hh.add_argument('name')
+    hh.add_argument('--variant', default='mc-asan')
+    hh.add_argument('--tier', default='quick')
+    hh.add_argument('--cells', default=None)
+    hh.add_argument('--deadline', type=float, default=600.0)
     x = sub.add_parser('crosscheck')
     x.add_argument('harness', nargs='*')
     x.add_argument('--P', type=int, default=2)
@@ -1088,6 +1153,8 @@ def main():
         sys.exit(replay(a.file))
     elif a.cmd == 'manifest':
         write_manifest()
+    elif a.cmd == 'harness':
+        sys.exit(run_harness(a.name, a.variant, a.tier, a.cells, a.deadline))
     elif a.cmd == 'crosscheck':
         sys.exit(crosscheck(a.harness, a.P, a.cells, deadline=a.deadline))
     elif a.cmd == 'upstream-tests':
